@@ -5590,7 +5590,10 @@ class PyCdlib:
 
         if symlink_path is not None:
             symlink_path_bytes = utils.normpath(symlink_path)
+            if not self.rock_ridge and self.interchange_level < 4:
+                _check_path_depth(symlink_path_bytes)
             (name, parent) = self._iso_name_and_parent_from_path(symlink_path_bytes)
+            _check_iso9660_filename(name, self.interchange_level)
 
             rec = dr.DirectoryRecord()
 
